@@ -57,7 +57,10 @@ func (dn SuDnum) Equal(other any) bool {
 	if d2, ok := other.(SuDnum); ok {
 		return dnum.Equal(dn.Dnum, d2.Dnum)
 	} else if i, ok := SuIntToInt(other); ok {
-		return dnum.Equal(dn.Dnum, dnum.FromInt(int64(i)))
+		// compare as integers (exact) to agree with SuInt and SuInt64 Equal
+		if n, ok := dn.IfInt(); ok {
+			return n == i
+		}
 	}
 	return false
 }
@@ -71,6 +74,11 @@ func (dn SuDnum) Compare(other Value) int {
 		return cmp * 2
 	}
 	// now know other is a number and ToDnum won't panic
+	if i, ok := SuIntToInt(other); ok {
+		if n, ok := dn.IfInt(); ok {
+			return cmp.Compare(n, i) // exact, agrees with Equal
+		}
+	}
 	return dnum.Compare(dn.Dnum, ToDnum(other))
 }
 
